@@ -84,7 +84,7 @@ impl MarkerJs for UuidMarker {
         json!(self.uuid().to_string())
     }
     fn from_js(v: &Value) -> Self {
-        UuidMarker::new(uuid::Uuid::parse_str(v.as_str().unwrap_or("")).unwrap_or_else(|_| uuid::Uuid::from_u128(v.as_u64().unwrap_or(0) as u128 + 1)))
+        UuidMarker::new(uuid::Uuid::parse_str(v.as_str().unwrap_or("")).unwrap_or_else(|_| uuid::Uuid::from_u128(v.as_u64().unwrap_or(0) as u128)))
     }
 }
 
